@@ -291,6 +291,9 @@ func (c *Ctx) floatVal() float64 {
 		return math.Float64frombits(c.rng.Uint64() & 0x000fffffffffffff) // subnormal
 	case 5:
 		return 0
+	case 6:
+		// exactly representable in float32, but with a different shortest decimal there
+		return []float64{float64(float32(0.1)), float64(float32(1.0 / 3)), 1 << 53, math.MaxFloat32, math.Pow(2, -20), float64(float32(c.rng.Float64()))}[c.rng.Intn(6)]
 	default:
 		f := math.Float64frombits(c.rng.Uint64())
 		return f
@@ -298,6 +301,9 @@ func (c *Ctx) floatVal() float64 {
 }
 
 func (c *Ctx) tagName() string {
+	if c.rng.Intn(6) == 0 {
+		return []string{"X", "X0", "X-", "XY1", "XY", "N!", "N"}[c.rng.Intn(7)]
+	}
 	a := "ABXYZNMabxz"
 	b := "ABXYZNM0123456789abz"
 	return string([]byte{a[c.rng.Intn(len(a))], b[c.rng.Intn(len(b))]})
@@ -309,6 +315,15 @@ func (c *Ctx) samRec() *sam.SAM {
 		Qname: t(10, ""), Flag: sam.Flag(c.extremeInt()), Rname: t(8, ""), Pos: c.extremeInt(), Mapq: c.extremeInt(),
 		Cigar: t(8, ""), Rnext: t(4, ""), Pnext: c.extremeInt(), Tlen: c.extremeInt(), Seq: t(30, ""), Qual: t(30, ""),
 		Tags: map[string]any{},
+	}
+	if c.rng.Intn(5) == 0 {
+		s.Rname = c.keyword()
+	}
+	if c.rng.Intn(4) == 0 {
+		s.Rnext = s.Rname
+	}
+	if c.rng.Intn(8) == 0 {
+		s.Cigar, s.Qname = c.keyword(), c.keyword()
 	}
 	for strings.HasPrefix(s.Qname, "@") {
 		s.Qname = s.Qname[1:]
@@ -432,7 +447,11 @@ func (c *Ctx) samMalformed() []byte {
 			case 0:
 				fs = append(fs[:j], fs[j+1:]...) // drop a field
 			case 1:
-				fs[j] = []byte("x" + string(fs[j])) // make non-numeric / break tag
+				if c.rng.Intn(3) == 0 {
+					fs[[]int{1, 3, 4, 7, 8}[c.rng.Intn(5)]%len(fs)] = []byte([]string{"-", "+", "", "1-", "--1"}[c.rng.Intn(5)])
+				} else {
+					fs[j] = []byte("x" + string(fs[j])) // make non-numeric / break tag
+				}
 			case 2:
 				fs = fs[:j] // too few fields
 			case 3:
@@ -457,6 +476,12 @@ func (c *Ctx) bedRec(n int) *bed.BED {
 	b := &bed.BED{N: n, Chrom: t(8, ""), ChromStart: c.extremeInt(), ChromEnd: c.extremeInt(), Name: t(10, ""),
 		Score: c.extremeInt(), Strand: []string{"", "+", "-", "."}[c.rng.Intn(4)], ThickStart: c.extremeInt(),
 		ThickEnd: c.extremeInt(), ItemRGB: [3]byte{byte(c.rng.Intn(256)), byte(c.rng.Intn(256)), byte(c.rng.Intn(256))}}
+	if c.rng.Intn(5) == 0 {
+		b.Chrom = c.keyword()
+	}
+	if c.rng.Intn(8) == 0 {
+		b.Name = c.keyword()
+	}
 	for strings.HasPrefix(b.Chrom, "#") {
 		b.Chrom = b.Chrom[1:]
 	}
